@@ -2,6 +2,12 @@
 //! Each subcommand reads ND-JSON cases and writes ND-JSON records; TLC is the judge.
 mod util;
 mod small;
+mod pool;
+mod member;
+mod iceberg;
+mod http;
+mod sqlrun;
+mod splits;
 
 fn main() {
     let args: Vec<String> = std::env::args().collect();
@@ -14,6 +20,18 @@ fn main() {
         "cpulist-replay" => small::cpulist_replay(rest),
         "cpulist-record" => small::cpulist_record(rest),
         "chunk-replay" => small::chunk_replay(rest),
+        "sqlrun" => sqlrun::sqlrun(rest),
+        "splits-enum" => splits::splits_enum(rest),
+        "lpt-replay" => splits::lpt_replay(rest),
+        "gate-replay" => splits::gate_replay(rest),
+        "http-replay" => http::http_replay(rest),
+        "http-record" => http::http_record(rest),
+        "iceberg-replay" => iceberg::replay(rest),
+        "member-universe" => member::universe(rest),
+        "member-replay" => member::replay(rest),
+        "member-record" => member::record(rest),
+        "pool-replay" => pool::replay(rest),
+        "pool-stress" => pool::stress(rest),
         other => {
             eprintln!("unknown subcommand {other}");
             2
